@@ -33,7 +33,8 @@ PROPERTY = "C18"
 RULE = ("case = (client family, sequence of environment actions: channel message, message for an unknown channel, garbage "
         "text, binary frame, subscription ack / error, reconnect request, clean close, abrupt drop, listen-key expiry (per "
         "user-data stream; also followed by one more message on the expired stream while its replacement is pending), next connect fails, next HTTP call (listen key / token) fails, next HTTP call or next send is "
-        "slow, register a new channel / a further user-data stream, let time pass); every sequence up to the depth is "
+        "slow, register a new channel / a further user-data stream, let time pass, let more than the validity of a Bitstamp "
+        "websocket token pass); every sequence up to the depth is "
         "executed on the real client. Distinct = distinct cases; non-trivial = more than one connection was made or a "
         "channel was registered / re-subscribed while connected.")
 ASSUMPTIONS = [
@@ -58,6 +59,9 @@ ASSUMPTIONS = [
     "a real server can still publish a message that was in flight on a stream whose key it has just declared expired, until "
     "the replacement is subscribed: that is no reason to give the connection up; whether such a message is forwarded as an "
     "event is left open",
+    "bitstamp-private: the fake REST endpoint issues websocket tokens that are valid for 60 virtual s; a private "
+    "bts:subscribe carrying an older (or unknown) token is answered with bts:error and does not count as a subscription; "
+    "`long_wait` lets 61 s pass on whatever connection is up",
     "whether the listenKeyExpired notice itself is forwarded to the user-data event source is left open by the statement: "
     "both are accepted",
 ]
@@ -71,6 +75,7 @@ EPOCH = datetime.datetime(2020, 1, 1, tzinfo=datetime.timezone.utc)
 KA = 0.2
 BACKOFF = 0.05
 STEP = 0.06
+TOKEN_VALID = 60.0  # Bitstamp: validity of a websocket auth token in seconds (valid_sec in the token reply)
 PB = bs.Pair("BTC", "USDT")
 PS = bs.Pair("BTC", "USD")
 # user-data streams: endpoint (and symbol) that issues and refreshes the listen key, from Binance's API documentation
@@ -94,7 +99,7 @@ ACTIONS = {
     "bitstamp-public": ["tick", "msg_trades", "msg_trades2", "msg_orders", "reconnect_req", "bts_error", "sub_failed", "garbage", "unknown_event",
                         "close", "drop", "fail_connect", "slow_send", "add_channel"],
     "bitstamp-private": ["tick", "msg_trades", "msg_trades2", "msg_orders", "reconnect_req", "sub_failed", "garbage", "close", "drop",
-                         "fail_connect", "fail_http", "slow_http", "add_channel"],
+                         "fail_connect", "fail_http", "slow_http", "add_channel", "long_wait"],
 }
 
 
@@ -237,6 +242,8 @@ def run_case(fam, actions):
         else:
             from basana.external.bitstamp import websockets as sws, trades as strades, orders as sorders, order_book as sbook
             private = fam == "bitstamp-private"
+            if private:
+                env.token_valid_sec = TOKEN_VALID  # websocket auth tokens expire, as Bitstamp's do
             cli = sws.PrivateWebSocketClient("k", "s", session=sess) if private else sws.PublicWebSocketClient(session=sess)
             chans = {}
             if private:
@@ -310,6 +317,8 @@ def run_case(fam, actions):
                     causes.append((ws.idx, a))
                 if a == "tick":
                     pass
+                elif a == "long_wait":
+                    await asyncio.sleep(TOKEN_VALID + 1)  # longer than the validity of a websocket auth token
                 elif a == "fail_connect":
                     env.fail_next_connect = True
                 elif a == "fail_http":
@@ -486,7 +495,7 @@ def run_case(fam, actions):
                     pass
         out = "ok"
         try:
-            t = loop.run(main(), horizon=30.0, max_steps=400000)
+            t = loop.run(main(), horizon=30.0 + (TOKEN_VALID + 1) * len(actions), max_steps=400000)
             if t.exception() is not None:
                 out = "raised:" + repr(t.exception())[:80]
         except (Deadlock, Horizon, StepCap, Livelock) as e:
